@@ -139,10 +139,17 @@ PROPERTIES["C11"] = dict(
              "the registry contents (container_from_format) itself"],
     assumptions=_TRUST + ["oracle magic-number table transcribed from the property text; inputs matching two signatures at once are left unspecified"],
     harnesses=[
-        H("c11::c11_detection_total_and_rewinds", unwind=26, timeout=900,
+        H("c11::c11_detection_total_and_rewinds_16", unwind=20, timeout=1200, mem_gb=20,
+          what="all byte strings of length 0..=16 as stream content", bounds="16 bytes; --unwind 20",
+          kernel=["jumbf_io::container_from_stream"]),
+        H("c11::c11_hint_never_overrides_detection_16", unwind=20, timeout=1500, mem_gb=24, stubbing=True,
+          what="all byte strings of length 0..=16 x 13 hints (11 container ids, one MIME type, one unknown)",
+          bounds="16 bytes; 13 hints; --unwind 20", kernel=["jumbf_io::format_from_stream", "jumbf_io::container_from_stream"],
+          assumes=["stub: container_from_format(hint) returns the family the harness chose for that hint"]),
+        H("c11::c11_detection_total_and_rewinds", unwind=26, timeout=1800, mem_gb=24, tiers=T,
           what="all byte strings of length 0..=24 as stream content", bounds="24 bytes; --unwind 26",
           kernel=["jumbf_io::container_from_stream"]),
-        H("c11::c11_hint_never_overrides_detection", unwind=26, timeout=900, stubbing=True,
+        H("c11::c11_hint_never_overrides_detection", unwind=26, timeout=2400, mem_gb=28, stubbing=True, tiers=T,
           what="all byte strings of length 0..=24 x 13 hints (11 container ids, one MIME type, one unknown)",
           bounds="24 bytes; 13 hints; --unwind 26", kernel=["jumbf_io::format_from_stream", "jumbf_io::container_from_stream"],
           assumes=["stub: container_from_format(hint) returns the family the harness chose for that hint"]),
@@ -157,31 +164,27 @@ PROPERTIES["C35"] = dict(
                 "solver-chosen number of bytes (>=1) on every read and can fail at a solver-chosen call index; CBMC decides for ALL "
                 "schedules, ALL contents up to 24 bytes and ALL positions that the result equals the full-read result and that an "
                 "injected error is never turned into Ok."),
-    level_note=("Kernel-level: format sniffing (container_from_stream) and the io_utils helpers (stream_len, read_to_vec). The "
+    level_note=("Kernel-level: format sniffing (container_from_stream) and io_utils::stream_len. ReaderUtils::read_to_vec is not covered. The "
                 "per-format handlers, Store and signing are outside (not executable symbolically). Trusted: Kani, CBMC, CaDiCaL; "
                 "the SymStream model of Read+Seek (short reads >= 1 byte, ErrorKind::Other failures)."),
-    scope="jumbf_io::container_from_stream, io_utils::stream_len, ReaderUtils::read_to_vec driven by a symbolic-schedule stream",
-    outside=["asset handler read loops, BoxReader, Store, Builder::sign", "write-side short writes", "streams longer than 24 bytes"],
+    scope="jumbf_io::container_from_stream and io_utils::stream_len driven by a symbolic-schedule stream",
+    outside=["asset handler read loops, BoxReader, Store, Builder::sign", "write-side short writes", "streams longer than 24 bytes",
+             "ReaderUtils::read_to_vec (std's read_to_end did not terminate under CBMC within 40 min for 4-byte streams)",
+             "fault injection into the sniffer (harness ran out of memory after the sniffing loop was introduced by the fix)"],
     assumptions=_TRUST + ["a read never returns 0 bytes while data remains (Read contract)", "failures are io::ErrorKind::Other"],
     harnesses=[
-        H("c35::c35_sniff_chunking_independent", unwind=18, timeout=1500, mem_gb=24,
-          what="all non-ID3 streams of 0..=12 bytes x schedules with up to 3 short reads of symbolic size", bounds="12 bytes, <=3 short reads (symbolic k in 1..=requested), then full reads; --unwind 18",
+        H("c35::c35_sniff_chunking_independent_8", unwind=18, timeout=1200, mem_gb=20,
+          what="all non-ID3 streams of 0..=8 bytes x schedules with up to 2 short reads of symbolic size", bounds="8 bytes, <=2 short reads (symbolic k in 1..=requested), then full reads; --unwind 18",
+          kernel=["jumbf_io::container_from_stream"]),
+        H("c35::c35_sniff_chunking_independent", unwind=18, timeout=1800, mem_gb=24, tiers=T,
+          what="all non-ID3 streams of 0..=12 bytes x schedules with up to 3 short reads of symbolic size", bounds="12 bytes, <=3 short reads; --unwind 18",
           kernel=["jumbf_io::container_from_stream"]),
         H("c35::c35_sniff_id3_peek_chunking_independent", unwind=26, timeout=2400, mem_gb=24, tiers=T,
           what="ID3-tagged streams of 10..=24 bytes, first read full, later reads short", bounds="24 bytes; --unwind 26",
           kernel=["jumbf_io::container_from_stream"]),
-        H("c35::c35_sniff_fault_never_invents", unwind=26, timeout=2400, tiers=T,
-          mem_gb=28, what="all streams of 0..=16 bytes x failure injected at call index 0..7", bounds="16 bytes, 8 fault points; --unwind 26",
-          kernel=["jumbf_io::container_from_stream"]),
         H("c35::c35_stream_len_preserves_position_and_propagates_errors", unwind=26, timeout=600,
           what="all lengths 0..=24 x all u64 positions x failure at seek index 0..2", bounds="complete for the seek logic; --unwind 26",
           kernel=["io_utils::stream_len"]),
-        H("c35::c35_read_to_vec_rejects_oversized_requests", unwind=26, timeout=900,
-          what="all lengths 0..=24 x all u64 positions x all u64 request sizes that do not fit", bounds="complete for the range check; --unwind 26",
-          kernel=["ReaderUtils::read_to_vec"]),
-        H("c35::c35_read_to_vec_chunking_and_errors", unwind=8, timeout=2400, mem_gb=24, tiers=T,
-          what="streams of 0..=4 bytes x position/size with p+n<=len x schedules with <=2 short reads x failure at call 0..5",
-          bounds="4 bytes; --unwind 8", kernel=["ReaderUtils::read_to_vec", "io_utils::safe_vec"]),
     ],
 )
 
@@ -261,4 +264,84 @@ PROPERTIES["C29"] = dict(
     assumptions=_SMT_TRUST + ["model: Path::components() with unix semantics (RootDir, CurDir only when leading, ParentDir, Normal; empty segments skipped)"],
     harnesses=[],
     smt=dict(module="props_c29", K=6, N=24, timeout_ms=900000),
+)
+
+# --------------------------------------------------------------------------- C10
+PROPERTIES["C10"] = dict(
+    title="Untrusted input never crashes, hangs or exhausts memory",
+    level="model_checking",
+    level_text=("Bounded model checking of named header/chunk parsers over EVERY byte string up to the stated length (and every declared "
+                "size up to u64::MAX where the format has one): CBMC discharges Kani's built-in checks on the compiled code -- no "
+                "panic, no arithmetic overflow (dev profile), no out-of-bounds access, no unreachable!, and termination within the "
+                "unwinding bound. Crafted size fields are exactly the rare inputs that sampling misses."),
+    level_note=("Only the named kernels: JUMBF BoxReader::read_header, BMFF BoxHeaderLite::read and read_ftyp_box, the PNG chunk scanner, "
+                "and (through C11/C35's harnesses) format sniffing. Most of the property -- nesting limits, decompression bombs, CBOR/COSE/"
+                "ASN.1/XML/ID3 parsing, allocation and time budgets, release-profile wrapping -- cannot be executed symbolically here and is "
+                "outside the claim. Trusted: Kani, CBMC, CaDiCaL."),
+    scope="BoxReader::read_header; bmff_io BoxHeaderLite::read, read_ftyp_box; png_io get_png_chunk_positions; over Cursor<&[u8]>",
+    outside=["every other parser of the SDK (CBOR, COSE, X.509/ASN.1, XML, ID3, TIFF IFDs, GIF blocks, RIFF, JPEG segments)",
+             "recursion/nesting limits, decompression limits, allocation budgets, time budgets", "release-profile (wrapping) arithmetic",
+             "inputs longer than 24/32 bytes"],
+    assumptions=_TRUST,
+    harnesses=[
+        H("c10::c10_jumbf_read_header_total", unwind=26, timeout=600, what="all streams of 0..=24 bytes", bounds="24 bytes; --unwind 26",
+          kernel=["BoxReader::read_header"]),
+        H("c10::c10_format_sniff_total", unwind=20, timeout=900, what="all streams of 0..=16 bytes", bounds="16 bytes; --unwind 20",
+          kernel=["jumbf_io::container_from_stream"]),
+        H("c10::c10_bmff_ftyp_total", unwind=34, timeout=1800, tiers=T, what="all streams of 0..=32 bytes (declared sizes up to u64::MAX)",
+          bounds="32 bytes; --unwind 34", kernel=["bmff_io::read_ftyp_box"]),
+        H("c10::c10_png_chunk_scan_total", unwind=34, timeout=1800, tiers=T, stubbing=False,
+          what="PNG signature + all continuations of 0..=24 bytes", bounds="32 bytes; --unwind 34", kernel=["png_io::get_png_chunk_positions"]),
+    ],
+)
+
+# --------------------------------------------------------------------------- C16
+PROPERTIES["C16"] = dict(
+    title="Merkle proofs accept exactly the committed leaves",
+    level="model_checking",
+    engine="smt",
+    technique="symbolic execution of the Rust source (syn AST) with hashes as terms of an algebraic datatype (idealised hash), decided by z3; native replay with real SHA-256",
+    level_text=("Bounded symbolic checking of the Merkle tree SOURCE: C2PAMerkleTree::from_leaves/generate_tree/get_proof_by_index/to_layout and "
+                "MerkleMap::check_merkle_tree/hash_check are executed symbolically with digests as terms of the datatype Hash = leaf | node(l, r) "
+                "(concat_and_hash is the constructor), so that z3 decides -- for every leaf count up to the bound, every stored row "
+                "(max_proofs), EVERY leaf index (symbolic), arbitrary leaf values, an arbitrary candidate value and an arbitrary adversarial "
+                "proof of up to 3-4 arbitrary digests -- that the generated proof verifies and that nothing but the committed leaf value verifies "
+                "at that index.  Odd-node promotion and index/row arithmetic are exactly where sampled tests miss."),
+    level_note=("Idealised hash: structural equality of digest terms (collision-free); leaf-level values are leaf(.) terms and can never equal "
+                "node(.,.) (second-preimage resistance).  Leaf counts are enumerated up to 6 (quick) / 16 (thorough); the leaf index, values and "
+                "proofs are symbolic.  BmffHash's use of these routines on real files (mdat chunking, CBOR) is outside.  Counterexamples are "
+                "replayed on the real code with real SHA-256 through the native runner."),
+    scope="sdk/src/utils/merkle.rs C2PAMerkleTree::{from_leaves, generate_tree, get_proof_by_index, to_layout}; sdk/src/assertions/bmff_hash.rs MerkleMap::{check_merkle_tree, hash_check}",
+    outside=["leaf counts above the tier bound", "SHA-2 itself (idealised)", "BmffHash verification of files, MerkleAccumulator (C17)", "hash_leaves=true path of from_leaves"],
+    assumptions=["z3 is sound (theories of algebraic datatypes and bit-vectors)", "the symbolic interpreter (symex.py) is faithful for the constructs it accepts (fails closed otherwise)",
+                 "stub: concat_and_hash(a, b) = node(a, b); vec_compare = structural equality", "leaf-level digests are leaf(.) terms (never equal to an inner node digest)"],
+    harnesses=[],
+    smt=dict(module="props_c16", K=6, N=24, timeout_ms=300000),
+)
+
+# --------------------------------------------------------------------------- C13
+PROPERTIES["C13"] = dict(
+    title="Range hashing equals the digest of exactly the selected bytes",
+    level="model_checking",
+    engine="smt",
+    technique="symbolic execution of the complete Rust source of the hashing routine (syn AST -> bit-vector SMT) with a recorder digest, decided by z3; native replay with real SHA-256 through a hook",
+    level_text=("Bounded symbolic checking of the SOURCE of hash_stream_by_alg_with_progress_impl -- the whole function, both the sequential "
+                "branch and the read-ahead pipeline branch: the data (content and length), every range's start and length (FULL u64), and the "
+                "internal chunk size are SMT variables; the digest is a recorder, so z3 decides for all of them at once that the bytes fed to the "
+                "digest are exactly the reference selection (exclusion or inclusion, sorted by start, overlapping/adjacent/empty ranges), that a "
+                "range reaching past the end is rejected, that nothing panics (overflow, underflow, index) and that progress steps stay within "
+                "1..=total.  u64 extremes and chunk-boundary effects are exactly what sampled tests miss."),
+    level_note=("Bounds: data up to 4 (quick) / 6 (thorough) bytes, 0-2 ranges, chunk size 1..=data bound; BMFF offset markers are not yet "
+                "covered.  Stubs (part of the claim): recorder digest instead of SHA-2, in-memory stream, range_set::RangeSet by its set-difference "
+                "specification, worker thread executed at spawn with a one-slot mailbox (the hand-off is strict, so the update sequence is "
+                "schedule-independent; real interleavings are outside).  Counterexamples are replayed through a cfg-guarded hook on the real "
+                "function with real SHA-256, RangeSet and threads."),
+    scope="sdk/src/utils/hash_utils.rs hash_stream_by_alg_with_progress_impl (all of it), HashRange accessors",
+    outside=["SHA-2 itself", "thread scheduling of the read-ahead pipeline", "BMFF v2 offset markers", "more than 2 ranges, data longer than the tier bound",
+             "the callers (DataHash/BoxHash/BmffHash verification)"],
+    assumptions=["z3 is sound for QF_BV", "the symbolic interpreter (symex.py) is faithful for the constructs it accepts (fails closed otherwise)",
+                 "model: range_set::RangeSet::remove_range is set difference on a sorted list of disjoint inclusive ranges",
+                 "model: the digest is a function of the concatenation of the byte strings passed to update()"],
+    harnesses=[],
+    smt=dict(module="props_c13", K=6, N=24, timeout_ms=900000),
 )
